@@ -34,19 +34,23 @@ def build(a, rnd):
     inp = {"x0": [rnd.randint(0, 9), rnd.randint(0, 9), rnd.randint(-4, 4)], "pri": [rnd.randint(1, 9) for _ in range(3)],
            "varstt": [rnd.choice([1, 3, 4, 2]) for _ in range(3)], "constt": [rnd.choice([1, 3, 4, 5]) for _ in range(nc)],
            "lazy": [rnd.choice([1, -1, 2]) for _ in range(nc)]}
+    inp["y0"] = [9000 + 7 * i + rnd.randint(0, 5) for i in range(nc)]     # larger than any scripted dual
+    inp["basis_in"] = rnd.random() < 0.5          # incoming basis, else primal/dual warm start
     if a["tr"] in ("inputs", "all"):
         m["x0"] = {i: v for i, v in enumerate(inp["x0"])}
-        m["y0"] = {i: 1 + i for i in range(nc)}
-        m["suffixes"] = [{"kind": 0, "name": "sstatus", "vals": {i: v for i, v in enumerate(inp["varstt"])}},
-                         {"kind": 1, "name": "sstatus", "vals": {i: v for i, v in enumerate(inp["constt"])}},
-                         {"kind": 0, "name": "priority", "vals": {i: v for i, v in enumerate(inp["pri"])}},
+        m["y0"] = {i: v for i, v in enumerate(inp["y0"])}
+        m["suffixes"] = [{"kind": 0, "name": "priority", "vals": {i: v for i, v in enumerate(inp["pri"])}},
                          {"kind": 1, "name": "lazy", "vals": {i: v for i, v in enumerate(inp["lazy"])}}]
+        if inp["basis_in"]:
+            m["suffixes"] += [{"kind": 0, "name": "sstatus", "vals": {i: v for i, v in enumerate(inp["varstt"])}},
+                              {"kind": 1, "name": "sstatus", "vals": {i: v for i, v in enumerate(inp["constt"])}}]
     cm, perm, corder = nlgen.canonical(m)
     # inputs re-expressed for the file-order items
     inv = {new: old for old, new in enumerate(perm)}
     cinp = {"x0": [inp["x0"][inv[j]] for j in range(3)], "pri": [inp["pri"][inv[j]] for j in range(3)],
             "varstt": [inp["varstt"][inv[j]] for j in range(3)],
-            "constt": [inp["constt"][i] for i in corder], "lazy": [inp["lazy"][i] for i in corder]}
+            "constt": [inp["constt"][i] for i in corder], "lazy": [inp["lazy"][i] for i in corder],
+            "y0": [inp["y0"][i] for i in corder]}
     return cm, cinp
 
 
@@ -122,7 +126,7 @@ def run(tier):
                           "linear": cc.get("expr") is None})
         perm_inp = c["inp"]
         rows, vars_ = [], []
-        got = {"hasStart": False, "x0": [], "hasPri": False, "pri": [], "hasBasis": False, "varstt": [], "constt": [], "hasLazy": False, "lazy": []}
+        got = {"hasDualStart": False, "y0": [], "hasStart": False, "x0": [], "hasPri": False, "pri": [], "hasBasis": False, "varstt": [], "constt": [], "hasLazy": False, "lazy": []}
         for ev in r["rec"]:
             if ev["e"] == "Vars":
                 vars_ = [{"lb": ival(lb), "ub": ival(ub)} for lb, ub in zip(ev["lb"], ev["ub"])]
@@ -131,6 +135,8 @@ def run(tier):
                 rows.append({"lin": [[v, ival(cf)] for cf, v in d["lin"]], "lb": ival(d["lb"]), "ub": ival(d["ub"])})
             elif ev["e"] == "MIPStart":
                 got.update(hasStart=True, x0=[ival(x) for x in ev["x"]])
+            elif ev["e"] == "PrimalDualStart":
+                got.update(hasDualStart=True, y0=[ival(y) for y in ev["y"].get("3", [])])
             elif ev["e"] == "VarPriorities":
                 got.update(hasPri=True, pri=ev["vars"])
             elif ev["e"] == "SetBasis":
@@ -152,8 +158,54 @@ def run(tier):
                "hasBasis": vs is not None or cs is not None, "varstt": vs or [], "constt": cs or [],
                "hasIIS": vi is not None or ci is not None, "variis": vi or [], "coniis": ci or []}
         if a_wants_inputs(c["a"]) is False:
-            got.update(hasStart=False, hasPri=False, hasBasis=False, hasLazy=False)
+            got.update(hasStart=False, hasPri=False, hasBasis=False, hasLazy=False, hasDualStart=False)
         recs.append({"e": "Case", "id": c["id"], "n0": n0, "ocons": ocons, "rows": rows, "vars": vars_, "ans": ans, "out": out, "got": got, "inp": perm_inp})
+    # ---- stage 2: TLC-generated histories of direct pre-/postsolve calls on the converted model
+    gh = tlc("GenHist", "GenHist.cfg", cwd=sd, workers=NPROC)
+    tlc_must_pass(gh, "GenHist")
+    hists = sorted((c["h"] for c in printed_json(gh, "CASE")), key=json.dumps)
+    if len(hists) != 12 + 144 + 1728:
+        raise Broken("GenHist produced %d histories" % len(hists))
+    VAL = {"sol": lambda t: rnd.randint(1, 9) + 20 * (3 - t), "gdbl": lambda t: rnd.randint(1, 9) + 20 * (3 - t), "gint": lambda t: rnd.randint(1, 9) + 20 * (3 - t),
+           "lazy": lambda t: rnd.choice([1, 2, 3]), "basis": lambda t: rnd.choice([5, 4] if t == 0 else [1, 3, 4, 5]), "iis": lambda t: rnd.choice([3, 2] if t == 0 else [1, 2, 3])}
+    hruns = []
+    okrecs = [x for x in recs if x["e"] == "Case"]
+    per = 3 if tier == "thorough" else 1
+    for rec in okrecs:
+        c = cases[rec["id"]]
+        for _ in range(per):
+            h = hists[rnd.randrange(len(hists))]
+            lines, xs = [], []
+            nv, nrows, nc = len(rec["vars"]), len(rec["rows"]), len(rec["ocons"])
+            for t, (d, k) in enumerate(h):
+                if d == "post":
+                    iv, ic = [VAL[k](t) for _ in range(nv)], [VAL[k](t) for _ in range(nrows)]
+                    lines.append("hist post %s | vars %s | cons 3 %s" % (k, " ".join(map(str, iv)), " ".join(map(str, ic))))
+                else:
+                    iv, ic = [VAL[k](t) for _ in range(rec["n0"])], [VAL[k](t) for _ in range(nc)]
+                    lines.append("hist pre %s | vars %s | cons 0 %s" % (k, " ".join(map(str, iv)), " ".join(map(str, ic))))
+                xs.append({"dir": d, "kind": k, "inVars": iv, "inCons": ic})
+            hruns.append({"id": len(hruns), "model": c["model"], "opts": [o for o in c["opts"] if not o.startswith("alg:")] + ["sol:chk:mode=0"],
+                          "answer": "status 0 scripted\n" + "\n".join(lines) + "\n", "base": rec, "xs": xs, "a": c["a"]})
+    hout = drv.run_cases(exe, PID + "h", hruns)
+    hrecs = []
+    for hr, o in zip(hruns, hout):
+        got = [e for e in o["rec"] if e["e"] == "Xfer"]
+        if o["hang"] or o["rc"] != 0 or len(got) != len(hr["xs"]):
+            hrecs.append({"e": "Crash", "id": hr["id"], "rc": o["rc"]})
+            continue
+        hist = []
+        for x, gx in zip(hr["xs"], got):
+            ov = [ival(v) for v in gx.get("vars", [])]
+            oc = gx.get("cons", {})
+            ocs = [ival(v) for v in (oc.get("3", []) if x["dir"] == "pre" else oc.get("0", []))]
+            hist.append(dict(x, outVars=ov, outCons=ocs, threw="throw" in gx))
+        b = hr["base"]
+        hrecs.append({"e": "Hist", "id": hr["id"], "n0": b["n0"], "ocons": b["ocons"], "rows": b["rows"], "vars": b["vars"], "hist": hist})
+    res2 = validate_parallel("TraceValMap", "TraceValMap.cfg", hrecs, sd, "c04h")
+    hverd = [v for r in res2 for v in printed_json(r, "VERDICT")]
+    if len(hverd) != len(hrecs):
+        raise Broken("history verdict count mismatch")
     res = validate_parallel("TraceValMap", "TraceValMap.cfg", recs, sd, "c04")
     verdicts = [v for r in res for v in printed_json(r, "VERDICT")]
     if len(verdicts) != len(recs):
@@ -165,7 +217,7 @@ def run(tier):
         if rr["e"] == "Case":
             for k in ("hasBasis", "hasIIS", "hasDual", "hasPrimal"):
                 seen_aspects["out." + k] = seen_aspects.get("out." + k, 0) + bool(rr["out"][k])
-            for k in ("hasStart", "hasPri", "hasBasis", "hasLazy"):
+            for k in ("hasStart", "hasPri", "hasBasis", "hasLazy", "hasDualStart"):
                 seen_aspects["got." + k] = seen_aspects.get("got." + k, 0) + bool(rr["got"][k])
     for vd in verdicts:
         if not vd["wrong"]:
@@ -179,13 +231,25 @@ def run(tier):
             v.violation(key, "rows %s extra=%s ranges=%s transfers=%s: %s at item %s (options %s)%s" %
                         (a.get("rows"), a.get("extra"), a.get("rmode"), a.get("tr"), w[0], w[1], c["opts"] if c else "", (" -- " + json.dumps(rec)[:300]) if rec.get("e") == "Crash" else ""),
                         {"case": a, "opts": c["opts"] if c else None, "record": rec})
+    nhbad = 0
+    for vd in hverd:
+        if not vd["wrong"]:
+            continue
+        nhbad += 1
+        hr = hruns[vd["id"]] if vd["id"] >= 0 else None
+        a = hr["a"] if hr else {}
+        for w in vd["wrong"]:
+            hs = "+".join("%s.%s" % (x["dir"], x["kind"]) for x in hr["xs"]) if hr else ""
+            v.violation("%s:%s:%s:%s:%s:step%s" % (w[0], "-".join(a.get("rows", [])), a.get("extra"), a.get("rmode"), hs, w[1]),
+                        "direct transfers %s on the model rows %s extra=%s ranges=%s: %s in step %s at item %s" % (hs, a.get("rows"), a.get("extra"), a.get("rmode"), w[0], w[1], w[2]),
+                        {"case": a, "history": hr["xs"] if hr else None, "answer": hr["answer"] if hr else None})
     rcode, nnew = v.finish()
-    if rcode == 0 and not all(seen_aspects.get(k) for k in ("out.hasBasis", "out.hasIIS", "out.hasDual", "out.hasPrimal", "got.hasStart", "got.hasPri", "got.hasBasis", "got.hasLazy")):
+    if rcode == 0 and not all(seen_aspects.get(k) for k in ("out.hasBasis", "out.hasIIS", "out.hasDual", "out.hasPrimal", "got.hasStart", "got.hasPri", "got.hasBasis", "got.hasLazy", "got.hasDualStart")):
         raise Broken("some transfer kind was never observed: %s" % seen_aspects)
     write_evidence(PID, tier, {
-        "states": mc.distinct + g.distinct + sum(r.distinct for r in res), "transitions": mc.generated + g.generated + sum(r.generated for r in res),
+        "states": mc.distinct + g.distinct + gh.distinct + sum(r.distinct for r in res + res2), "transitions": mc.generated + g.generated + sum(r.generated for r in res),
         "design_check": {"module": "MCValCvt", "distinct_states": mc.distinct, "self_test_without_cleanup": neg.violated},
-        "traces_validated_against_impl": len(recs), "samples": [cases[0]["a"], cases[-1]["a"], {k: recs[0].get(k) for k in ("ocons", "rows", "out", "got")}],
+        "traces_validated_against_impl": len(recs) + len(hrecs), "direct_transfer_histories": len(hrecs), "rejected_histories": nhbad, "samples": [cases[0]["a"], cases[-1]["a"], {k: recs[0].get(k) for k in ("ocons", "rows", "out", "got")}],
         "evaluations": len(recs), "generated_cases_total": len(gen), "rejected_runs": nbad, "transfers_observed": seen_aspects,
         "explanation": "TLC enumerates row-kind sequences x extras x range handling x transfer sets; each sampled case is run through the real driver with index-coded scripted primal/dual and seeded basis/IIS vectors (longer than the model), and input suffixes / warm start; TLC locates each original linear constraint's image among the delivered rows structurally and decides every value returned or passed on",
         "violations_new": nnew,
